@@ -1,12 +1,14 @@
 from vlib.core import Query, Plan
 
 R = "vlib.cbmc:cbmc_query"
-FAST = ["_X86INTRIN_H_INCLUDED", "_IMMINTRIN_H_INCLUDED"]   # see harness/inflate_common/plans.py
+# Build-speed only: include guards of gcc's <x86intrin.h>/<immintrin.h> (see harness/inflate_common/plans.py)
+FAST = ["_X86INTRIN_H_INCLUDED", "_IMMINTRIN_H_INCLUDED"]
 # everything igzip.c links against in the portable-C configuration (the harnesses #include igzip.c itself)
 IGZIP_UNITS = ["igzip/igzip_base.c", "igzip/igzip_base_aliases.c", "igzip/igzip_icf_base.c", "igzip/igzip_icf_body.c",
                "igzip/hufftables_c.c", "igzip/huff_codes.c", "igzip/encode_df.c", "igzip/flatten_ll.c",
                "igzip/adler32_base.c", "igzip/proc_heap_base.c", "igzip/igzip_inflate.c", "crc/crc_base.c",
                "crc/crc_base_aliases.c"]
+UF = ["--arrays-uf-always"]   # keeps the 64 KiB member arrays of isal_zstream out of the bit-blaster (2.4 M vars otherwise)
 
 
 def q(qid, harness, hdef, core=False, witness=False, family=None, weight=1.0, **kw):
@@ -18,36 +20,77 @@ def q(qid, harness, hdef, core=False, witness=False, family=None, weight=1.0, **
 def plan(tier, ctx):
     quick = tier == "quick"
     qs = []
-    # (b) zlib header window announcement
-    qs.append(q("zlib_hdr/unit", "harness/C17/h_zlibhdr.c", [], unwind=4, core=True, witness=True))
-    qs.append(q("zlib_hdr/api_stateless", "harness/C17/h_zlibhdr.c", ["H_API"], unwind=12, core=False, witness=True, weight=3))
-    # (c) dictionary calls
+    # ---- (b) zlib header window announcement -----------------------------------------------------
+    Z = "harness/C17/h_zlibhdr.c"
+    qs.append(q("zlib_hdr/unit", Z, [], unwind=4, core=True, witness=True))
+    qs.append(q("zlib_hdr/api_stateless", Z, ["H_API"], unwind=12, core=False, witness=True, weight=3))
+    # ---- (c) dictionary calls ----------------------------------------------------------------------
     D = "harness/C17/h_dict.c"
-    UF = ["--arrays-uf-always"]
-    qs.append(q("set_dict/symbolic_len", D, ["H_SET", "DC_STUB_MEMCPY"], unwind=17, flags=UF, core=True, witness=True, weight=5))
+    T = 400
+    qs.append(q("set_dict/symbolic_len", D, ["H_SET", "DC_STUB_MEMCPY"], unwind=17, flags=UF, core=True, witness=True,
+                weight=8, timeout=T))
     for n in ([0, 1, 5] if quick else [0, 1, 2, 3, 4, 5, 8, 16]):
-        qs.append(q("set_dict/len%d" % n, D, ["H_SET", "DICT_LEN=%d" % n], unwind=17, flags=UF, core=(n == 5), witness=(n == 5), weight=3))
+        qs.append(q("set_dict/len%d" % n, D, ["H_SET", "DICT_LEN=%d" % n], unwind=max(17, n + 2), flags=UF, weight=6, timeout=T))
     for lvl in (0, 1, 2, 3):
-        qs.append(q("reset_dict/level%d" % lvl, D, ["H_RESET", "DC_STUB_MEMCPY", "LEVEL=%d" % lvl,
-                                                    "DC_LEVEL_BUF_SIZE=%s" % ("ISAL_DEF_LVL%d_MIN" % lvl if lvl else "64")],
-                    unwind=17, flags=UF, core=(lvl in (0, 3)), witness=(lvl in (0, 3)), weight=5))
-    qs.append(q("reset_dict/bad_level", D, ["H_RESET", "DC_STUB_MEMCPY", "BAD_LEVEL"], unwind=17, flags=UF, weight=5))
-    qs.append(q("process_dict/symbolic_len", D, ["H_PROCESS", "DC_STUB_MEMCPY"], unwind=17, flags=UF, core=True, witness=True, weight=5))
+        qs.append(q("reset_dict/level%d" % lvl, D,
+                    ["H_RESET", "DC_STUB_MEMCPY", "LEVEL=%d" % lvl,
+                     "DC_LEVEL_BUF_SIZE=%s" % ("ISAL_DEF_LVL%d_MIN" % lvl if lvl else "64")],
+                    unwind=17, flags=UF, core=(lvl in (0, 3)), witness=(lvl in (0, 3)), weight=5, timeout=T))
+    qs.append(q("reset_dict/bad_level", D, ["H_RESET", "DC_STUB_MEMCPY", "BAD_LEVEL"], unwind=17, flags=UF, weight=5, timeout=T))
+    qs.append(q("process_dict/symbolic_len", D, ["H_PROCESS", "DC_STUB_MEMCPY"], unwind=17, flags=UF, core=True, witness=True,
+                weight=10, timeout=T))
     for n in ([1, 5] if quick else [1, 2, 3, 4, 5, 8]):
-        qs.append(q("process_dict/len%d" % n, D, ["H_PROCESS", "DICT_LEN=%d" % n], unwind=17, flags=UF, weight=3))
+        qs.append(q("process_dict/len%d" % n, D, ["H_PROCESS", "DICT_LEN=%d" % n], unwind=17, flags=UF, weight=3, timeout=T))
     ID = "harness/C17/h_infdict.c"
     INF_UNITS = ["igzip/hufftables_c.c"]
-    qs.append(Query("inflate_set_dict/symbolic_len", R, dict(harness=ID, units=INF_UNITS, defines=FAST, hdefines=["IC_STUB_MEMCPY"],
-                                                             unwind=3, flags=UF, witness=True), core=True, family="inflate_set_dict", weight=5))
+    qs.append(Query("inflate_set_dict/symbolic_len", R,
+                    dict(harness=ID, units=INF_UNITS, defines=FAST, hdefines=["IC_STUB_MEMCPY"], unwind=3, flags=UF, witness=True),
+                    core=True, family="inflate_set_dict", weight=5))
     for n in ([0, 5] if quick else [0, 1, 2, 5, 8]):
-        qs.append(Query("inflate_set_dict/len%d" % n, R, dict(harness=ID, units=INF_UNITS, defines=FAST, hdefines=["DICT_LEN=%d" % n],
-                                                              unwind=3, flags=UF, witness=False), family="inflate_set_dict", weight=3))
-    # (d) hash priming
+        qs.append(Query("inflate_set_dict/len%d" % n, R,
+                        dict(harness=ID, units=INF_UNITS, defines=FAST, hdefines=["DICT_LEN=%d" % n], unwind=max(3, n + 2), flags=UF),
+                        family="inflate_set_dict", weight=3))
+    # ---- (d) hash priming ----------------------------------------------------------------------------
     for n in ([0, 3, 4, 8] if quick else list(range(0, 9))):
         for mask in ((15,) if quick or n != 8 else (15, 63)):  # measured: mask 255 > 150 s, mask 8191 OOM at 8 GB
             core = (n, mask) == (8, 15)
             qs.append(Query("hash_base/len%d_mask%d" % (n, mask), R,
-                            dict(harness="harness/C17/h_hash.c", units=["igzip/igzip.c"] + [u for u in IGZIP_UNITS if u != "igzip/igzip_base.c"], defines=FAST,
+                            dict(harness="harness/C17/h_hash.c",
+                                 units=["igzip/igzip.c"] + [u for u in IGZIP_UNITS if u != "igzip/igzip_base.c"], defines=FAST,
                                  hdefines=["DICT_LEN=%d" % n, "MASK=%d" % mask], unwind=max(10, min(mask, 64) + 3),
-                                 unwindset=["harness.2:%d" % (mask + 2), "harness.3:%d" % (mask + 2)], witness=core), core=core, family="hash_base", weight=2))
-    return Plan("C17", "model_checking", qs, functions_encoded=[], bounds={}, stubs=[], assumptions=[], outside=[])
+                                 unwindset=["harness.2:%d" % (mask + 2), "harness.3:%d" % (mask + 2)], witness=core),
+                            core=core, family="hash_base", weight=2))
+    return Plan(
+        "C17", "model_checking", qs,
+        functions_encoded=["set_dist_mask", "_zlib_header_in_buffer", "isal_deflate_stateless (zlib header path, empty input)",
+                           "isal_deflate_set_dict", "isal_deflate_reset_dict", "check_level_req", "isal_deflate_process_dict",
+                           "isal_inflate_set_dict", "isal_deflate_hash_base"],
+        bounds={
+            "zlib header": "hist_bits all 2^16 values, level all 2^32 values (unit); hist_bits symbolic, level 0, empty input (API)",
+            "dictionary calls": "dict_len SYMBOLIC 0..70000 with the payload copy recorded (src/dst/len) instead of performed, plus "
+                                "concrete lengths 0,1,5 (thorough 0..5,8,16) with the real memcpy and byte comparison; every scalar "
+                                "field of the stream (state over the whole enum, b_bytes_*, level, level_buf NULL/non-NULL, "
+                                "level_buf_size, has_hist, ...) and of struct isal_dict arbitrary; reset_dict per level 0..3 with a "
+                                "level buffer object of exactly ISAL_DEF_LVLn_MIN bytes, and level > 3",
+            "isal_deflate_hash_base": "dict_len 0..8, hash_mask 15 (63), current_index all 2^32, dictionary bytes arbitrary",
+        },
+        stubs=["memcpy (symbolic-length flavours, CBMC only): records (dst, src, n) after asserting r_ok/w_ok of both ranges, moves no bytes",
+               "isal_deflate_hash_lvl0..3 as called from isal_deflate_process_dict: recording stub (arguments asserted); the real "
+               "isal_deflate_hash_base is checked separately",
+               "hash function in the hash_base harness: arbitrary 32-bit value per call (huffman.h's __SSE4_2__ variant of compute_hash with "
+               "the intrinsic _mm_crc32_u32 supplied by the harness) - sound for any hash function",
+               "include guards _X86INTRIN_H_INCLUDED/_IMMINTRIN_H_INCLUDED predefined (build speed only)"],
+        assumptions=["isal_deflate_process_dict: the OUTPUT structure's `level` field is <= 3 on entry - the function reads it "
+                     "(`dict->level > ISAL_DEF_MAX_LEVEL` => ISAL_INVALID_STATE) before writing it; with an uninitialised struct isal_dict "
+                     "(as igzip_file_perf.c / igzip_rand_test.c pass) the call can be refused spuriously: SUSPECTED DEFECT, flavour "
+                     "-DPROCESS_UNINIT of harness/C17/h_dict.c shows it",
+                     "reset_dict: level_buf_size does not exceed the size of the object level_buf points to",
+                     "big member arrays (buffer[], head[], history) are zero except one arbitrary element each (the observed one)",
+                     "RFC 1950 CMF/FLG layout as written in the harness"],
+        outside=["(a) distances emitted by the match finders (isal_deflate_body/finish_base, ICF finders, gen_icf_map_h1_base): not "
+                 "attempted in this round - measured out of reach three times in round 0 (DESIGN C17); C17 therefore says nothing about "
+                 "emitted distances",
+                 "end-to-end dictionary round trips; the assembly match finders and isal_deflate_hash asm variants",
+                 "streaming isal_deflate header path (write_stream_header) beyond the shared _zlib_header_in_buffer",
+                 "hash tables larger than 64 entries in the hash_base harness (bounds of table[hash & mask] follow from the mask)"],
+        trusted_base=["cbmc 6.11 C front end + SAT back end"])
